@@ -65,6 +65,22 @@ func c13len(r *core.Run, thorough bool) int {
 	return n
 }
 
+// c13dest returns an n-byte destination pre-filled with garbage; two times out of three it is
+// the front of a larger allocation (a slice with spare capacity, as buf[:n] of an array is).
+func c13dest(r *core.Run, n int) (dest, spare []byte) {
+	t := r.T
+	extra := 0
+	if t.W(3) != 0 {
+		extra = 1 + t.W(48)
+	}
+	buf := t.Bytes(core.SW, n+extra)
+	return buf[:n], append([]byte(nil), buf[n:]...)
+}
+
+func c13spareIntact(dest, spare []byte) bool {
+	return bytes.Equal(dest[len(dest):len(dest)+len(spare)], spare)
+}
+
 type c13T struct {
 	it *merlin.Transcript
 	mt *model.MTranscript
@@ -151,8 +167,11 @@ func runC13(e *Env, r *core.Run) {
 		case k <= 5:
 			p := ts[t.W(len(ts))]
 			l, n := label(), c13len(r, e.Thorough())
-			dest := t.Bytes(core.SW, n) // garbage pre-fill
+			dest, spare := c13dest(r, n) // garbage pre-fill, often with spare capacity behind it
 			p.it.ExtractBytes(dest, l)
+			if !c13spareIntact(dest, spare) {
+				r.Fail("caller-buffer", "extract-wrote-behind-destination", "ExtractBytes wrote behind the %d bytes it was given (the destination's spare capacity)", n)
+			}
 			want := p.mt.Challenge(l, n)
 			r.Ev("T%d.Extract(%s, %d) -> %s", p.id, core.Hex8([]byte(l)), n, core.Hex8(dest))
 			r.Count(c13extract)
@@ -228,8 +247,11 @@ func runC13(e *Env, r *core.Run) {
 		case k >= 10 && len(rs) > 0:
 			p := rs[t.W(len(rs))]
 			n := c13len(r, e.Thorough())
-			dest := t.Bytes(core.SW, n)
+			dest, spare := c13dest(r, n)
 			m, err := p.ir.Read(dest)
+			if !c13spareIntact(dest, spare) {
+				r.Fail("caller-buffer", "read-wrote-behind-destination", "the transcript RNG wrote behind the %d bytes it was given (the destination's spare capacity)", n)
+			}
 			want := p.mr.Read(n)
 			r.Ev("R%d.Read(%d) -> %s", p.id, n, core.Hex8(dest))
 			r.Count(c13read)
